@@ -51,11 +51,17 @@ Proof.
   - nrun H. unfold pret in H. injection H as <- _ _. reflexivity.
 Qed.
 
+Lemma wvtt_name h r l rsv r' : dec_wvtt h r = Ok ((l, rsv), r') -> leaf_name l = n_wvtt.
+Proof.
+  intros H. unfold dec_wvtt in H. destruct (rdB 6 r) as [[r6 r1]| | |]; [destruct (rd 2 r1) as [[dri r2]| | |]|..];
+    try (destruct (16 <? h_size h); [discriminate H|]); injection H as <- _ _; reflexivity.
+Qed.
+
 Lemma leaf_table_ok : Forall entry_ok leaf_table.
 Proof.
   unfold leaf_table.
   repeat apply Forall_cons; try apply Forall_nil; split; cbn [fst snd];
-    try first [ exact lossless_ftyp | exact lossless_free | exact lossless_empty | exact lossless_b4 | exact lossless_mdat | exact lossless_mfhd
+    try first [ exact lossless_ftyp | exact lossless_free | exact lossless_empty | exact lossless_b4 | exact lossless_data | exact lossless_mime | exact lossless_mdat | exact lossless_mfhd
               | exact lossless_tfhd | exact lossless_tfdt | exact lossless_trun | exact lossless_mvhd
               | exact lossless_tkhd | exact lossless_sidx | exact lossless_trex | exact lossless_mdhd
               | exact lossless_hdlr | exact lossless_stts
@@ -75,7 +81,7 @@ Proof.
     try (apply (uuid_name _ _ _ _ _ H));
     try (apply (elng_name _ _ _ _ _ H));
     try (unfold dec_mdat in H; destruct (rdB (payload_len h) r) as [[x r1]| | |]; injection H; intros; subst; reflexivity);
-    unfold dec_ftyp, dec_free, dec_empty, dec_b4, dec_mfhd, dec_tfhd, dec_tfdt, dec_trun, dec_mvhd, dec_tkhd, dec_sidx, dec_trex, dec_mdhd,
+    unfold dec_ftyp, dec_free, dec_empty, dec_b4, dec_data, dec_mime, dec_mfhd, dec_tfhd, dec_tfdt, dec_trun, dec_mvhd, dec_tkhd, dec_sidx, dec_trex, dec_mdhd,
       dec_hdlr, dec_stts, dec_stsc, dec_stsz, dec_tab, dec_sdtp, dec_ctts, dec_elst, dec_saiz, dec_saio, dec_sbgp, dec_prft,
       dec_tenc, dec_frma, dec_vmhd, dec_smhd, dec_fullonly, dec_mfro, dec_mehd, dec_tfra, dec_pssh,
       dec_url, dec_btrt, dec_pasp, dec_colr, dec_clap, dec_schm, dec_cslg, dec_senc, dec_emsg, dec_kind, dec_subs, dec_sgpd in H;
@@ -91,6 +97,8 @@ Lemma pre_table_ok : Forall pre_entry_ok pre_table.
 Proof.
   unfold pre_table.
   repeat apply Forall_cons; try apply Forall_nil; split; cbn [fst snd];
-    try first [ exact lossless_stsd | exact lossless_dref | exact lossless_visual | exact lossless_audio | exact lossless_fullonly ];
-    intros h r l rsv r' Hn H; unfold dec_stsd, dec_dref, dec_visual, dec_audio, dec_fullonly in H; name_of H.
+    try first [ exact lossless_stsd | exact lossless_dref | exact lossless_visual | exact lossless_audio | exact lossless_fullonly
+              | exact lossless_wvtt ];
+    intros h r l rsv r' Hn H; try exact (wvtt_name _ _ _ _ _ H);
+    unfold dec_stsd, dec_dref, dec_visual, dec_audio, dec_fullonly in H; name_of H.
 Qed.
